@@ -49,6 +49,8 @@ def parseAddr (s : String) : Option Addr :=
   match s.splitOn ":" with
   | ["n", n] => (unhexStr n).map (fun n => { name := n })
   | ["k", k] => (unhex k).map (fun k => { key := some k })
+  -- an account created at run time, addressed by its key on the implementation side: the same account as by name
+  | ["d", n] => (unhexStr n).map (fun n => { name := n })
   | ["b", n, k] =>
     match unhexStr n, unhex k with
     | some n, some k => some { name := n, key := some k }
